@@ -648,6 +648,24 @@ func GenRounds(rnd *rand.Rand, persist bool) RHist {
 					continue
 				}
 				op := mkOp(rnd, c, path(), vals)
+				// twins: a key that differs from an existing one in exactly one character and gets the SAME value - leaves with
+				// equal remaining path and equal value in two slots of one branch (node identity must still tell them apart)
+				if len(view[c]) > 0 && rnd.Intn(100) < 12 {
+					ks := make([]string, 0, len(view[c]))
+					for k := range view[c] {
+						if len(k) >= 2 {
+							ks = append(ks, k)
+						}
+					}
+					sort.Strings(ks)
+					if len(ks) > 0 {
+						k := ks[rnd.Intn(len(ks))]
+						q := []byte(k)
+						i := rnd.Intn(len(q))
+						q[i] = "0123456789abcdef"[(strings.IndexByte("0123456789abcdef", q[i])+1+rnd.Intn(15))%16]
+						op = ROp{Op: "ins", T: c, P: bridge.Chars(q), V: view[c][k]}
+					}
+				}
 				// remember what the path held in this child's view before the change
 				key := string(joinChars(op.P))
 				prev, had := view[c][key]
